@@ -142,6 +142,19 @@ func cmdMain(args []string) int {
 		return doCheck(args[1], args[2])
 	case "replay":
 		return doReplay(args[1])
+	case "build":
+		// vtool build <dir>: instrument + build the mc binary into <dir> and keep it (for debugging)
+		if err := os.MkdirAll(args[1], 0o755); err != nil {
+			fmt.Fprintln(os.Stderr, err)
+			return 2
+		}
+		bin, err := buildMC(args[1])
+		if err != nil {
+			fmt.Fprintln(os.Stderr, err)
+			return 2
+		}
+		fmt.Println(bin)
+		return 0
 	case "selftest":
 		scratch, err := os.MkdirTemp("/var/tmp", "verif-")
 		if err != nil {
